@@ -313,6 +313,8 @@ def vector_cases(draw):
     if sc != 1 or draw(st.booleans()):
         opts['scale'] = sc
     border = draw(st.sampled_from([None, None, 0, 1, 2, 4, 5, 9]))
+    if draw(st.integers(0, 9)) == 0:
+        border = draw(st.sampled_from([R.size_of(v) + 1, 2 * R.size_of(v) + 3, 50]))  # wider than the symbol
     if border is not None or draw(st.booleans()):
         opts['border'] = border
     if kind == 'svg':
